@@ -368,6 +368,12 @@ fn allowed(sel: &Sel, results_len: &[usize], out: &mut Vec<Kind>, soft: &mut boo
             if list.iter().all(|(_, w)| *w == 0) {
                 out.push(Kind::ZeroWeightSum);
             } else {
+                if list.iter().try_fold(0usize, |acc, (_, w)| acc.checked_add(*w)).is_none() {
+                    // the usize total does not exist: reporting the zero-total-weight error variant (it
+                    // carries the weight error) is accepted, selecting by the weights is accepted too;
+                    // a panic is not
+                    out.push(Kind::ZeroWeightSum);
+                }
                 for (m, w) in list {
                     if *w > 0 {
                         allowed(m, results_len, out, soft);
@@ -706,8 +712,9 @@ fn gen_sel(g: &mut Xo, depth: usize, n: usize, cases: usize) -> Sel {
                     .map(|_| {
                         let w = match g.below(6) {
                             0 | 1 => 0,
-                            // large usize weights (their sum stays far below usize::MAX): a weight that
+                            // large usize weights (sometimes with a total beyond usize::MAX): a weight that
                             // is a multiple of 2^32 must not be mistaken for zero
+                            2 if g.chance(1, 5) => *g.pick(&[usize::MAX, usize::MAX - 1, usize::MAX / 2 + 1, usize::MAX / 2]),
                             2 => *g.pick(&[1usize << 32, 3usize << 32, 1usize << 40, (1usize << 32) + 1, u32::MAX as usize + 1]),
                             _ => g.urange(1, 5),
                         };
@@ -846,7 +853,7 @@ impl Check for C06 {
         vec![
             "an Err is accepted iff some member reachable with positive weight can legitimately report it for this population (which member is chosen depends on the stream); Ok is rejected only when every reachable member must fail".into(),
             "MissingTestCase may or may not strike when some individual has fewer results than the configured case count (depends on the filtering order)".into(),
-            "DynWeighted weight sums stay far below usize::MAX (overflow of the usize sum is outside the statement); individual weights go up to 2^40".into(),
+            "DynWeighted lists whose usize weight total overflows may select by the weights or report the zero-total-weight error variant (carrying the weight error); they may not panic".into(),
         ]
     }
 
